@@ -46,6 +46,10 @@
                    return → deferred `crw.Close()` and `conn.Close()`;
   * `graceExpire`  the timer fires first: `Close` on both destinations, the remaining copier fails.
 
+  The second half of the file puts a clock on this machine (`TState`, `tstep`): the grace timer is
+  started at the instant of the first `eof` and `graceExpire` is enabled only once the period has
+  elapsed.
+
   Core-only.
 -/
 import FwdVerif.Lib.Wire
@@ -230,6 +234,101 @@ instance (s : State) (d : Dir) : Decidable (quiescent s d) := by
 def Cfg.replyExact (c : Cfg) : Prop := c.replyKeep = true ∨ c.replyGran ≤ 1
 
 instance (c : Cfg) : Decidable c.replyExact := by unfold Cfg.replyExact; exact inferInstance
+
+/-! ### The clock of the grace period
+
+  `bicopy` starts `gracefulCloseAfter(ctx, bicopyGracefulTimeout, …)` when the FIRST copier returns
+  (`i == 0` of the receive loop) and cancels it (`defer cancel()`) when the second one has returned.
+  The untimed machine above lets `graceExpire` happen at any moment after the first finish; the
+  timed machine below adds what the timer adds:
+
+  * `now`        the wall clock (any unit; the harness uses milliseconds since the tunnel was set up);
+  * `armedAt`    the instant the first copier returned = `time.After(d)` was started; never re-armed;
+  * `tick n`     `n` units pass.  While the timer is pending (armed, and `bicopy` still waiting for the
+                 second copier: phase `tunnel`) time cannot pass beyond `armedAt + period + slack`
+                 without `graceExpire` being taken: `slack` is the latitude of the runtime (timer
+                 wake-up, goroutine scheduling), `0` for an ideal one;
+  * `act .graceExpire` enabled exactly when `armedAt + period ≤ now` and the untimed step is enabled
+                 (phase `tunnel`, i.e. not both directions finished; `grace`); records `expiredAt`;
+  * `act st`     any other step of the untimed machine, at the current instant; the step that makes
+                 `grace` true (the first `eof`) arms the timer with the current instant.
+
+  Erasing the ticks of a timed run gives a run of the untimed machine (`trun_erase` in
+  `Lemmas/C03.lean`), so everything proved about `run` holds of timed runs. -/
+
+structure Timing where
+  /-- `bicopyGracefulTimeout` -/
+  period : Nat
+  /-- the forced close happens at most this long after `armedAt + period` -/
+  slack : Nat
+  deriving DecidableEq, Repr
+
+structure TState where
+  s : State := {}
+  now : Nat := 0
+  /-- instant at which the first copier returned and the timer was started -/
+  armedAt : Option Nat := none
+  /-- ghost: instant at which the timer fired -/
+  expiredAt : Option Nat := none
+  deriving DecidableEq, Repr
+
+def tinit : TState := {}
+
+inductive TStep where
+  | tick (n : Nat)
+  | act (st : Step)
+  deriving DecidableEq, Repr
+
+/-- `now + n` lies beyond the last instant at which a pending timer may still not have fired -/
+def TState.blocked (τ : Timing) (t : TState) (n : Nat) : Bool :=
+  match t.armedAt with
+  | some a => decide (t.s.phase = .tunnel) && decide (a + τ.period + τ.slack < t.now + n)
+  | none => false
+
+/-- the period has elapsed since the timer was started -/
+def TState.due (τ : Timing) (t : TState) : Bool :=
+  match t.armedAt with
+  | some a => decide (a + τ.period ≤ t.now)
+  | none => false
+
+/-- the untimed machine moved to `s'` at the current instant; the move that makes `grace` true
+    starts the timer -/
+def TState.moved (t : TState) (s' : State) : TState :=
+  { t with
+    s := s'
+    armedAt :=
+      match t.armedAt with
+      | some a => some a
+      | none => if s'.grace = true then some t.now else none }
+
+def tstep (c : Cfg) (τ : Timing) (t : TState) : TStep → Option TState
+  | .tick n => if t.blocked τ n = true then none else some { t with now := t.now + n }
+  | .act st =>
+    if st = .graceExpire then
+      if t.due τ = true then
+        match step c t.s .graceExpire with
+        | some s' => some { t with s := s', expiredAt := some t.now }
+        | none => none
+      else none
+    else
+      match step c t.s st with
+      | some s' => some (t.moved s')
+      | none => none
+
+def trunFrom (c : Cfg) (τ : Timing) : TState → List TStep → Option TState
+  | t, [] => some t
+  | t, st :: rest =>
+    match tstep c τ t st with
+    | none => none
+    | some t' => trunFrom c τ t' rest
+
+def trun (c : Cfg) (τ : Timing) (steps : List TStep) : Option TState := trunFrom c τ tinit steps
+
+/-- the untimed schedule of a timed one -/
+def erase : List TStep → List Step
+  | [] => []
+  | .tick _ :: rest => erase rest
+  | .act st :: rest => st :: erase rest
 
 /-! ### What the endpoints can observe, and the acceptor used by the driver (`holds`) -/
 
